@@ -35,6 +35,8 @@ theorem num_processes_spec (env : Option Int) (cores : Int) :
 
 theorem glue_flags : fromCorrfuncsAsModelled = true ∧ normalisedArrayAsModelled = true ∧ raddAsModelled = true := by decide
 
+theorem fits_flags : fitsByteorderValuePreserving = true := by decide
+
 /-! non-vacuity -/
 example : getSize (some 3) 8 = 3 ∧ getSize (some 12) 8 = 8 ∧ getSize none 8 = 8 ∧ getSize (some 0) 8 = 8 := by decide
 example : numProcesses (some 2) 16 = 2 ∧ numProcesses (some 64) 16 = 16 ∧ numProcesses none 16 = 16 := by decide
